@@ -2,7 +2,7 @@
 //! C13 — honours its timeout, C14 — never fabricates, duplicates or loses data entries.
 
 use super::pn::{pn_alphabet, random_pn_event, KINDS};
-use crate::explore::{explore, Sys};
+use crate::explore::{cycles_upto2, explore, pump, starts_from, Sys};
 use crate::poll::*;
 use crate::report::Report;
 use crate::scan::*;
@@ -40,6 +40,40 @@ fn explore_poll(cfg: &Cfg, rep: &mut Report, chans: &[u8], values: &[u8], timeou
     );
 }
 
+/// repetition workload for the polling scanner (counters, streak heuristics, generations)
+pub fn pump_polling(cfg: &Cfg, rep: &mut Report, timeout: u64, stream: usize) {
+    let c = crate::util::rotating_channel(cfg, stream);
+    let t = if timeout == T_INF { 3 * TICK } else { timeout.max(1) };
+    let (x, y, l, m, m2, i) = (Ev::cc(c, 101, 3), Ev::cc(c, 100, 4), Ev::cc(c, 38, 9), Ev::cc(c, 6, 5), Ev::cc(c, 6, 6), Ev::cc(c, 97, 2));
+    let (p, tk, tk1) = (Ev::Poll(c), Ev::Tick(t), Ev::Tick(1));
+    let syms = [x, y, l, m, m2, i, p, tk, tk1, Ev::cc(c, 7, 1), Ev::Reset];
+    let mut fresh = PollMon::new(timeout);
+    fresh.p5 = false;
+    let starts = starts_from(&fresh, &[vec![], vec![x, y], vec![x, y, m], vec![x, y, l], vec![x, y, m, l]], rep);
+    let tail = [x, l, m, i, p, tk];
+    let units: Vec<Vec<Ev>> = vec![
+        vec![m, tk, p],
+        vec![m2, tk, p],
+        vec![m, tk1, p],
+        vec![x, y, m],
+        vec![m, l],
+        vec![l, m],
+        vec![x, y, l, m],
+        vec![m, tk, p, m2, tk, p],
+        vec![m, i],
+        vec![l, tk, p],
+    ];
+    if cfg.thorough && cfg.release && !cfg.as_c18 {
+        pump(cfg, rep, &starts, &cycles_upto2(&syms, &units), 2_000, &tail, true);
+        pump(cfg, rep, &starts, &units, 66_000, &tail, false);
+    } else {
+        pump(cfg, rep, &starts, &cycles_upto2(&syms, &units), cfg.size(20, 300, 600) as usize, &tail, true);
+        if !cfg.as_c18 {
+            pump(cfg, rep, &starts[..3], &units[..4], 66_000, &tail, false);
+        }
+    }
+}
+
 pub fn random_poll_histories(cfg: &Cfg, rep: &mut Report, total: u64, stream: u64, timing_focus: bool) {
     par(cfg, rep, |shard, nsh, rep| {
         let mut rng = Rng::derive(cfg.seed, stream + shard as u64);
@@ -56,7 +90,7 @@ pub fn random_poll_histories(cfg: &Cfg, rep: &mut Report, total: u64, stream: u6
             } else {
                 vec![1, t / 2, t.saturating_sub(1), t, t + 1, 3 * t + 5]
             };
-            let nvalues = *rng.pick(&[2u8, 3, 4, 128]);
+            let nvalues = *rng.pick(&[2u8, 3, 4, 128, 200, 200]);
             let chans = *rng.pick(&[1u8, 1, 2, 3, 16]);
             let mut mon = PollMon::new(timeout);
             mon.now = *rng.pick(&[0u64, 17, 1 << 40]);
@@ -130,6 +164,15 @@ pub fn run_c14(cfg: &Cfg, rep: &mut Report) {
                 explore_poll(cfg, rep, &[c], &p[..], t, 2_000_000, "c14-rotating");
             }
         }
+    }
+    if !cfg.as_c18 {
+        for (i, p) in crate::util::dict_pairs(cfg, 3, 1).iter().enumerate() {
+            explore_poll(cfg, rep, &[[0u8, 15, 9, 5][i % 4]], &p[..], T2, 2_000_000, "c14-dictionary");
+        }
+    }
+    pump_polling(cfg, rep, T2, 1);
+    if !cfg.as_c18 {
+        pump_polling(cfg, rep, 0, 2);
     }
     let total = cfg.size(3_000, 10_000_000, 200_000_000);
     random_poll_histories(cfg, rep, total, 0xC14_00, false);
@@ -334,6 +377,22 @@ pub fn run_c13(cfg: &Cfg, rep: &mut Report) {
             }
         }
     }
+    if !cfg.as_c18 {
+        for (i, p) in crate::util::dict_pairs(cfg, 3, 1).iter().enumerate() {
+            let c = [0u8, 15, 9, 5][i % 4];
+            let alpha = pn_alphabet(&[c], &p[..], true, Some(TICK));
+            let init = PollTemplates { mon: PollMon::new(T2), chan: c };
+            let (st, _) = explore(cfg, init, &alpha, 2_000_000, rep, false);
+            rep.states += st.states;
+            rep.transitions += st.transitions;
+            rep.evaluations += st.transitions;
+            rep.distinct_nontrivial += st.states;
+            rep.count("dictionary_explorer_runs", 1);
+            if !st.fixpoint {
+                rep.inconclusive("C13 dictionary explorer did not reach a fixpoint");
+            }
+        }
+    }
     if cfg.thorough && cfg.release && !cfg.as_c18 {
         // a second timeout so that ages 0,1,2,3 ticks are distinguishable; 3 values
         let alpha = pn_alphabet(&[11], &[0, 1, 127], true, Some(TICK));
@@ -347,6 +406,10 @@ pub fn run_c13(cfg: &Cfg, rep: &mut Report) {
         if !st.fixpoint {
             rep.inconclusive("C13 explorer (timeout 3 ticks) did not reach a fixpoint");
         }
+    }
+    pump_polling(cfg, rep, T2, 5);
+    if !cfg.as_c18 {
+        pump_polling(cfg, rep, T_INF, 6);
     }
     random_poll_histories(cfg, rep, cfg.size(3_000, 8_000_000, 150_000_000), 0xC13_00, true);
     metamorphic(cfg, rep, cfg.size(1_000, 2_000_000, 40_000_000));
@@ -866,6 +929,46 @@ pub fn run_c12(cfg: &Cfg, rep: &mut Report) {
                 }
             }
         }
+        // long repetitions of one form after a single selection (streak / counter heuristics)
+        if shard == 0 || nsh == 1 {
+            use UnitKind::*;
+            let reps = cfg.size(6, 40, 300) as usize;
+            let patterns: Vec<Vec<UnitKind>> = vec![
+                vec![M],
+                vec![ML],
+                vec![Inc],
+                vec![Dec],
+                vec![ML, Lf],
+                vec![M, Inc],
+                vec![ML, M],
+                vec![M, ML],
+                vec![ML, Lf, Lf, M],
+            ];
+            for timeout in [0u64, T2] {
+                for pat in &patterns {
+                    for deco in decos {
+                        let mut us: Vec<UnitKind> = Vec::new();
+                        for _ in 0..reps {
+                            us.extend(pat.iter().copied());
+                        }
+                        // L+ may also follow the initial LSB-first pair
+                        let mut with_lm = vec![LM];
+                        with_lm.extend(us.iter().copied().filter(|k| *k != LM));
+                        for (vi, units) in [us.clone(), with_lm].into_iter().enumerate() {
+                            if vi == 1 && pat[0] != Lf && pat != &vec![ML, Lf] {
+                                continue;
+                            }
+                            let s = build_sentence(((timeout as usize + us.len()) % 16) as u8, &[(true, 2 * 128 + 5, false, units)], &mut id);
+                            let mut mon = PollMon::new(timeout);
+                            mon.p5 = false;
+                            play(&mut mon, vec![new_play(s)], deco, true, &[], &mut rng, rep);
+                            sentences += 1;
+                            rep.count("c12_long_repetition_sentences", 1);
+                        }
+                    }
+                }
+            }
+        }
         rep.count("c12_enumerated_sentences", sentences);
         rep.distinct_nontrivial += sentences;
         // seeded random long sentences on up to 16 interleaved channels
@@ -919,6 +1022,9 @@ pub fn run_c12(cfg: &Cfg, rep: &mut Report) {
         let mut setups: Vec<(u64, u8, [u8; 2])> = vec![(0, 6, [0, 1]), (T2, 6, [0, 1])];
         for (i, p) in crate::util::value_pairs(cfg, 0xC12, 2).iter().enumerate().skip(1) {
             setups.push((T2, crate::util::rotating_channel(cfg, i), *p));
+        }
+        for (i, p) in crate::util::dict_pairs(cfg, 2, 1).iter().enumerate() {
+            setups.push((T2, [0u8, 15, 9][i % 3], *p));
         }
         for (t, chan, vals) in setups {
             let alpha = pn_alphabet(&[chan], &vals[..], true, Some(TICK));
